@@ -142,8 +142,16 @@ static void applyStaging(Scenario& sc, int k) {
         a.flags = F_P2M | F_M2M; b.flags = F_M2L | F_P2P; c.flags = F_L2L | F_L2P;
         sc.history.clear();
         sc.history.push_back(a);
-        for (int i = 0; i < 3; ++i) if (comps[k % 4][i]) { HistOp t; t.op = "top"; t.flags = comps[k % 4][i]; sc.history.push_back(t); }
-        sc.history.push_back(b);
+        auto top = [&](int f) { HistOp t; t.op = "top"; t.flags = f; sc.history.push_back(t); };
+        // the top-tree pass and the transfer pass are independent (both only ADD to the level-1 locals): either order, and the
+        // top-tree pass may be interleaved with it; the reference is always the documented order with one top-tree call
+        switch (k % 8) {
+            case 4: sc.history.push_back(b); top(F_M2M | F_M2L | F_L2L); break;
+            case 5: sc.history.push_back(b); top(F_M2M); top(F_M2L | F_L2L); break;
+            case 6: top(F_M2M | F_M2L); sc.history.push_back(b); top(F_L2L); break;
+            case 7: top(F_M2M); sc.history.push_back(b); top(F_M2L); top(F_L2L); break;
+            default: for (int i = 0; i < 3; ++i) if (comps[k % 4][i]) top(comps[k % 4][i]); sc.history.push_back(b); break;
+        }
         sc.history.push_back(c);
         sc.variant = "topstaged";
         return;
@@ -368,6 +376,14 @@ Scenario generate(const std::string& prop, uint64_t seed, const std::string& tie
         HistOp a = full, t, b = full, c = full;
         a.flags = F_P2M | F_M2M; t.op = "top"; t.flags = F_ALL; b.flags = F_M2L | F_P2P; c.flags = F_L2L | F_L2P;
         sc.history = {a, t, b, c};
+        if (r.chance(0.15)) {
+            // the top-tree executor called several times with arbitrary non-empty subsets of its three flags (the twin does the same):
+            // e.g. a transfer-only call on a fresh object, or a downward pass before any upward pass
+            sc.history = {a};
+            const int calls = 1 + int(r.below(3));
+            for (int q = 0; q < calls; ++q) { HistOp tq = t; tq.flags = (1 + int(r.below(7))) << 2; sc.history.push_back(tq); }   // bits M2M=4, M2L=8, L2L=16
+            sc.history.push_back(b); sc.history.push_back(c);
+        }
         topSequence = true;
     }
     // move / rebuild / (query) / execute histories: C13's workload, and a share of C02's and C15's (an executor that is reused
